@@ -12,7 +12,8 @@ EXPLANATION = (
     "count}; that Blob::read seeks to self.offset first, validates the section header, copies through take(self.length) "
     "into the caller's writer only, and returns Ok only after comparing the copied count with self.length; that the four "
     "add_* functions store Blob::write(writer, image) / Blob::write(writer, mask) / format / properties into the matching "
-    "representation and slot; and that ImageFormat<->tag and the imageMask tag agree between writer and reader. Not "
+    "representation and slot; and that ImageFormat<->tag and the imageMask tag agree between writer and reader. Also the page reader's cache typestate "
+    "(C07-R1..R4) and the writer's reload-after-advance rule, because blob bytes travel through both. Not "
     "decided: byte equality for every length and position (page-layer behaviour, see C11).")
 
 
